@@ -108,11 +108,18 @@ def run(ctx):
     need(where, oks, "return (search_result, None)")
     k2_unreachable(ctx, "count-check", where, g, {"discard_excess": False, "not discard_excess": True, "len(included_keys) != revision_count": True}, oks, "a count mismatch is answered with NoSuchRevision unless discard_excess")
     ctx.check("count-check", where, any(isinstance(n, ast.Constant) and n.value == b"NoSuchRevision" for n in walk_own(fn)), "the mismatch answer is NoSuchRevision")
+    # what is counted is exactly what the walk returned: the state is not rewritten between get_state() and its uses
+    MUT = {"discard", "remove", "add", "update", "difference_update", "intersection_update", "symmetric_difference_update", "pop", "clear"}
+    for v in ("started_keys", "excludes", "included_keys"):
+        re_ = [norm(s_)[:60] for s_ in walk_own(fn) if isinstance(s_, (ast.Assign, ast.AugAssign)) and any(isinstance(t, ast.Name) and t.id == v for t_ in (s_.targets if isinstance(s_, ast.Assign) else [s_.target]) for t in ast.walk(t_)) and not (isinstance(s_, ast.Assign) and isinstance(s_.value, ast.Call) and call_attr(s_.value) == "get_state")]
+        mu = [norm(c)[:60] for c in calls_in(fn) if call_recv(c) == v and call_attr(c) in MUT]
+        ctx.check("count-check", where, not re_ and not mu, f"`{v}` from search.get_state() reaches the count check and the SearchResult unmodified", construct="; ".join(re_ + mu), message=f"the walk's state `{v}` is rewritten before it is counted / returned ({'; '.join(re_ + mu)}): the server no longer checks the count of what it actually walked against the client's count (a recipe whose walk reaches null: now fails or passes wrongly)")
     sres = [c for c in calls_in(fn) if call_attr(c) == "SearchResult"]
     ctx.check("count-check", where, len(sres) == 1 and [norm(a) for a in sres[0].args] == ["started_keys", "excludes", "len(included_keys)", "included_keys"], "the server's SearchResult is built from what it actually walked")
 
 
 MUTANTS = [
+    Mutant("null: dropped from the walked keys before the count check", SR, "            (started_keys, excludes, included_keys) = search.get_state()\n", "            (started_keys, excludes, included_keys) = search.get_state()\n            included_keys = set(included_keys)\n            included_keys.discard(b\"null:\")\n", expect="count-check"),
     Mutant("start/stop lines swapped in the client serialiser", RM, "        return b\"\\n\".join((start_keys, stop_keys, count))\n\n    def _serialise_search_result", "        return b\"\\n\".join((stop_keys, start_keys, count))\n\n    def _serialise_search_result", expect="writer-fields"),
     Mutant("tag renamed on the client only", VS, "        parts = [b\"ancestry-of\"]", "        parts = [b\"ancestry\"]", expect="tags"),
     Mutant("server reads the count from the wrong line", SR, "        revision_count = int(lines[2].decode(\"ascii\"))", "        revision_count = int(lines[-1].decode(\"ascii\"))", expect="reader-fields"),
